@@ -6,6 +6,10 @@ import sys
 
 HERE = os.path.dirname(os.path.dirname(os.path.abspath(__file__)))
 
+HIST_NOTE = (" Also explored from non-initial process states: static worker schedule, sentinel "
+             "re-runs of the first item after other items, and two Solver objects alive at once "
+             "(both constructed, then solved in either order).")
+
 LP_NOTE = ("Trusted base: vf/ref.py (reference semantics by enumeration of all "
            "assignments), vf/fakecbc.py (exact integer enumeration of the MPS "
            "file PuLP wrote, bound to CBC 2.10.3 by conformance runs counted in "
@@ -24,7 +28,7 @@ CHECKS = {
         design_ref="DESIGN.md 5 C02",
         technique="bounded-exhaustive stateless exploration of the implementation under an "
                   "owned MILP back end (all optimal answers enumerated) vs enumeration oracle",
-        note=LP_NOTE),
+        note=LP_NOTE + HIST_NOTE),
     "C01": dict(
         category="model_checking",
         text="Stateless exploration of the real solver for every instance x option vector of the "
@@ -34,7 +38,7 @@ CHECKS = {
              "lecturer quotas, closure rule, one project per student).",
         design_ref="DESIGN.md 5 C01",
         technique="bounded-exhaustive stateless exploration under an owned MILP back end, all optimal answers enumerated",
-        note=LP_NOTE),
+        note=LP_NOTE + HIST_NOTE),
     "C03": dict(
         category="model_checking",
         text="For each single criterion with every argument vector of the small domain, every "
@@ -59,7 +63,7 @@ CHECKS = {
              "maxsize/minsize the printed size is compared with the reference extremum.",
         design_ref="DESIGN.md 5 C05",
         technique="bounded-exhaustive enumeration of all 0/1 points of the real integer program vs blocking-pair definition",
-        note=LP_NOTE),
+        note=LP_NOTE + HIST_NOTE),
     "C06": dict(
         category="exploration",
         text="Every two-sided instance of the families is loaded through the real Solver and "
@@ -76,7 +80,7 @@ CHECKS = {
              "recomputed from the abstract instance and the printed matching line.",
         design_ref="DESIGN.md 5 C11",
         technique="bounded-exhaustive stateless exploration under an owned MILP back end; recomputation oracle",
-        note=LP_NOTE),
+        note=LP_NOTE + HIST_NOTE),
     "C07": dict(
         category="exploration",
         text="Solver(argv+['-bf']).solve(); get_results() on every instance of the families x {-pc} "
